@@ -68,6 +68,23 @@ func nativeRedirects(dir string, overlay map[string][]byte, redirects map[string
 				if sel, ok := pkg.TypesInfo.Selections[fun]; ok { // method call
 					if fn, ok := sel.Obj().(*types.Func); ok {
 						if stub, ok := redirects[fn.FullName()]; ok {
+							// a method promoted from embedded fields: spell the path to the embedded receiver out
+							recv := fun.X
+							rt := sel.Recv()
+							idx := sel.Index()
+							for k := 0; k < len(idx)-1; k++ {
+								if p, ok := rt.Underlying().(*types.Pointer); ok {
+									rt = p.Elem()
+								}
+								st, ok := rt.Underlying().(*types.Struct)
+								if !ok {
+									break
+								}
+								f := st.Field(idx[k])
+								recv = &ast.SelectorExpr{X: recv, Sel: ast.NewIdent(f.Name())}
+								rt = f.Type()
+							}
+							fun.X = recv
 							call.Args = append([]ast.Expr{fun.X}, call.Args...)
 							call.Fun = ast.NewIdent(stub)
 							changed = true
